@@ -1,7 +1,9 @@
 (* C02 — every violated rule is reported exactly once, in order; nil iff none.  Statements only. *)
 From PGV Require Import Base.Bytes Base.GoStr Base.GoNum Base.Utf8.
 From PGV Require Import Model.RuleText Model.Value Model.Clause Model.Rules Model.Walk.
+From Coq Require Import Sorted.
 From PGV Require Import Proofs.RuleContract Proofs.WalkProofs Proofs.WalkProofs2.
+From PGV Require Import Spec.WalkAddr Proofs.WalkAddrProofs.
 
 (* the result is nil exactly when no clause was written and no group is violated *)
 Theorem C02_nil_iff : forall b, get_error b = ONil <-> (b_cl b = [] /\ eval_groups (rev (b_gr b)) = []).
@@ -56,3 +58,61 @@ Example C02_layout :
     Some (s2b """T.F"" input ""abc"", explain: M1") /\
   clause_text (CValid [] (s2b "F") [] (VCustom (s2b "说明: 必填"))) = Some (s2b """F"" input """", 说明: 必填").
 Proof. vm_compute. split; reflexivity. Qed.
+
+(* THE WHOLE WALK, at full strength.  Spec/WalkAddr.v says, without buffer, fuel or traversal, which
+   addresses resolve to a rule instance of the object graph and what one instance writes by itself.
+   For every configuration and every object graph (any depth and width): there is a list L of
+   addresses, strictly increasing in the lexicographic order (declaration order of fields, then rule
+   order, nested instances after the rule that opens them) and so without repetition, that holds
+   exactly the resolving addresses, and the validator appends to its buffer exactly the contribution
+   of each address of L, in that order -- it never stops early, never repeats, never invents. *)
+Theorem C02_walk_exact : forall c fuel sn v g, wf_val v = true -> (depth v < fuel)%nat ->
+  exists L : list (list nat),
+    StronglySorted lex_lt L /\ NoDup L /\
+    (forall a, In a L <-> resolve c a sn v <> None) /\
+    forall b, validate c fuel sn v g b =
+      Ok {| b_cl := rev (top_clause sn v g ++ flat_map (fun a => site_clauses c (resolve c a sn v)) L) ++ b_cl b;
+            b_gr := rev (flat_map (fun a => site_members c (resolve c a sn v)) L) ++ b_gr b |}.
+Proof. exact walk_exact. Qed.
+Print Assumptions C02_walk_exact.
+
+(* the entry point valid.Struct / ValidateStruct on a struct, pointers to one, or a slice / array /
+   map of them: the error is exactly those clauses in that order, group clauses last, nil iff none *)
+Theorem C02_struct_valid_exact : forall c fuel v rv, wf_val v = true -> (depth v < fuel)%nat -> strip_top v = inl rv ->
+  exists L : list (list nat),
+    StronglySorted lex_lt L /\ NoDup L /\
+    (forall a, In a L <-> resolve_top c a rv <> None) /\
+    struct_valid c fuel (Some v) =
+      Ok (outcome_of (top_clause_of rv ++ flat_map (fun a => site_clauses c (resolve_top c a rv)) L)
+                     (flat_map (fun a => site_members c (resolve_top c a rv)) L)).
+Proof. exact struct_valid_exact. Qed.
+Print Assumptions C02_struct_valid_exact.
+
+(* the order is a strict total order on distinct addresses, so L is unique *)
+Theorem C02_order_strict : (forall a, ~ lex_lt a a) /\ (forall a b d, lex_lt a b -> lex_lt b d -> lex_lt a d).
+Proof. split; [exact lex_lt_irrefl|exact lex_lt_trans]. Qed.
+
+(* non-vacuity: a struct with a violated scalar rule and a required slice of structs, the second
+   element violating twice: the resolving addresses and what the entry point returns *)
+Local Open Scope string_scope.
+Definition ex_cfg : cfg := {| c_tag := s2b "valid"; c_typed := []; c_unscoped := None; c_local := []; c_global := []; c_orc := no_oracles |}.
+Definition ex_fi (n t : String.string) : finfo := {| f_name := s2b n; f_tags := [(s2b "valid", s2b t)]; f_time := false |}.
+Definition ex_inner (a : String.string) (n : Z) : val :=
+  VStruct {| s_name := s2b "In"; s_tstr := s2b "main.In" |}
+    [(ex_fi "A" "to=2~3|MA,required|MR", VStr (s2b a)); (ex_fi "N" "ge=5|MN", VInt WInt n)].
+Definition ex_outer : val :=
+  VPtr (VStruct {| s_name := s2b "Out"; s_tstr := s2b "main.Out" |}
+    [(ex_fi "S" "le=2|MS", VStr (s2b "abc"));
+     (ex_fi "L" "required|ML", VSlice false KStruct (s2b "main.In") [ex_inner "ab" 7; ex_inner "abcd" 3])]).
+Example C02_walk_example :
+  map fst (enum_top ex_cfg 10 (VStruct {| s_name := s2b "Out"; s_tstr := s2b "main.Out" |}
+    [(ex_fi "S" "le=2|MS", VStr (s2b "abc"));
+     (ex_fi "L" "required|ML", VSlice false KStruct (s2b "main.In") [ex_inner "ab" 7; ex_inner "abcd" 3])]))
+  = [[0;0]; [1;0]; [1;0;0;0;0]; [1;0;0;0;1]; [1;0;0;1;0]; [1;0;1;0;0]; [1;0;1;0;1]; [1;0;1;1;0]]%nat /\
+  wf_val ex_outer = true /\
+  option_map (fun o => match o with OClauses cs => map canon cs | _ => [] end)
+    (match struct_valid ex_cfg 10 (Some ex_outer) with Ok o => Some o | _ => None end)
+  = Some [s2b "Out.S" ++ US :: s2b "abc" ++ US :: s2b "C:explain: MS";
+          s2b "Out.L[1].A" ++ US :: s2b "abcd" ++ US :: s2b "C:explain: MA";
+          s2b "Out.L[1].N" ++ US :: s2b "3" ++ US :: s2b "C:explain: MN"].
+Proof. vm_compute. repeat split; reflexivity. Qed.
